@@ -8,7 +8,8 @@ C13_STUB = {
     "restart": "SimKV fenced at the crash (later writes of old goroutines bounce), old arbitrator stopped, SimKV reopened, start state read like ChainArbitrator.Start (getStartState in one read tx), new arbitrator built like newActiveChannelArbitrator / loadPendingCloseChannels (pending-close: no chain events, no channel, CloseType/ClosingHeight from the close record), Start(beat at the current height)",
     "ChainArbitrator.ResolveContract": "real: on a NotifyChannelResolved signal the driver (playing the resolveContracts goroutine) calls (*ChainArbitrator).ResolveContract(chanPoint) on a ChainArbitrator value built in-package with what that method touches (chanSource = the real *channeldb.DB, activeChannels = {chanPoint: the running ChannelArbitrator}, activeWatchers empty); it runs on its own goroutine to quiescence. MarkChanFullyClosed, ChannelArbitrator.Stop and WipeHistory happen in lnd's order with lnd's writes; a crash before / after each of them is enumerated. The oracle 'resolved only while the unresolved-contracts bucket is empty' is evaluated when ResolveContract is entered",
     "PutResolverReport / FetchHistoricalChannel": "simulator (reports in an own bucket of the same file, inside the log's transaction where lnd passes one; fixed channel type)",
-    "chain (notifier, mempool, counterparty), sweeper, utxo nursery, witness beacon, invoice registry, breach arbitrator, switch (DeliverResolutionMsg), final-HTLC-outcome store": "simulator; the chain script (who spends which HTLC output how and when, confirmation delay per outpoint, when a preimage turns up, when justice is served) is drawn from the tape at the close trigger and replayed unchanged in every crash execution. Chain state, mempool, nursery store, sweeper tx store, witness cache and final outcomes are durable across a crash; notifier registrations and the sweeper's pending inputs die with the process. Already-confirmed spends are re-notified on registration with their historical details, the sweeper answers an already-spent input at once (ours / ErrRemoteSpend)",
+    "utxo nursery + nursery store, arm 'legacy+nursery' (one pre-anchor scenario in four; last configuration draw, 0 = the model below)": "real: contractcourt.UtxoNursery over contractcourt.NurseryStore, built like lnd's server (NewNurseryStore(&chainHash, db) on the SAME channeldb / SimKV file as the arbitrator log; NewUtxoNursery(&NurseryConfig{ChainIO, ConfDepth: 1, FetchClosedChannels / FetchClosedChannel of the real channel database, Notifier, PublishTransaction, Store, SweepInput, Budget: default}); Start() BEFORE the arbitrator is started, as server.go orders utxoNursery.Start and chainArb.Start) and ChainArbitratorConfig.IncubateOutputs = nursery.IncubateOutputs. The store's write transactions (Incubate, CribToKinder, PreschoolToKinder, GraduateKinder, RemoveChannel) are numbered writes of the same file = crash points of the same enumeration; in this arm two of three sampled crash points of the quick tier are placed at nursery-store writes. A crash takes the nursery down with the node; at the restart a new store and a new UtxoNursery are built on the reopened database and started (closeAndRemoveIfMature for pending-close channels, reloadPreschool, reloadClasses) before the arbitrator is rebuilt. The nursery outlives the channel's arbitrator (ResolveContract): an execution ends when the channel is fully closed AND every output in the nursery store has graduated, is spent on chain, or can never exist (the counterparty took the HTLC). Seams are the simulator's: best block = simulated height; block epochs for every simulated block (backlog semantics of RegisterBlockEpochNtfn(bestBlock)); confirmation notifications when the chain script confirms a transaction, historical ones dispatched after the registration returned and only if the height hint is not above the confirmation height (a hint of 0 is refused like the real notifier does); PublishTransaction puts the transaction into the chain script's mempool (ErrDoubleSpend if an input is spent by another transaction); SweepInput goes to the chain script's sweeper (broadcast when the CSV / CLTV lock allows, result when the sweep or a foreign spend confirms, at once for an input that is already spent; pending inputs die with the process). The nursery's stubs never park (it calls them under its mutex); one notification at a time to quiescence, IncubateOutputs calls serialised by the arbitrator world's scheduler",
+    "chain (notifier, mempool, counterparty), sweeper, utxo nursery (all other arms), witness beacon, invoice registry, breach arbitrator, switch (DeliverResolutionMsg), final-HTLC-outcome store": "simulator; the chain script (who spends which HTLC output how and when, confirmation delay per outpoint, when a preimage turns up, when justice is served) is drawn from the tape at the close trigger and replayed unchanged in every crash execution. Chain state, mempool, nursery store, sweeper tx store, witness cache and final outcomes are durable across a crash; notifier registrations and the sweeper's pending inputs die with the process. Already-confirmed spends are re-notified on registration with their historical details, the sweeper answers an already-spent input at once (ours / ErrRemoteSpend)",
     "chain watcher": "not run; after a restart of a not-yet-closed channel whose funding output is spent the simulator re-dispatches the same close event, as the chain watcher does on its historical spend notification",
     "HTLC sets / commitments / resolutions": "C12 model (synthetic commitments with real resolution structs, anchors or legacy, dust per commitment, duplicates of hashes)",
 }
@@ -18,7 +19,9 @@ C13_ASSUME = [
     "every offered HTLC is a forwarded one and the grace period is 0 (uptime-dependent decisions are reset by a restart by design; C12 covers them); a received HTLC is an exit hop only if its hash is unique, exit-hop knowledge lives in the invoice registry, forwarded-HTLC knowledge in the witness beacon",
     "the chain script never lets a preimage become known in the very block in which a received HTLC with that hash expires (the order of the two notifications is a race inside lnd with two legal outcomes)",
     "relaxations: identical duplicates of upstream resolutions / publishes / sweep requests are allowed and counted; extra publishes or sweep requests that the uninterrupted run never made are counted, not judged; the block count is not compared (a restarted execution gets 6 more blocks); the anchor resolver's report is not compared (stateless, not in the log, races with full resolution already without a crash); re-incubating an offered legacy HTLC at the nursery is not judged",
-    "PutFinalHtlcOutcome and the nursery / sweeper / witness stores are durable stores of other subsystems, not crash points",
+    "PutFinalHtlcOutcome and the sweeper / witness stores are durable stores of other subsystems, not crash points; the nursery store is one only in the arm 'legacy+nursery' (in the other arms the nursery is a model whose state survives a crash)",
+    "arm 'legacy+nursery': which client of the notifier / sweeper (arbitrator or nursery) hears of a confirmation, spend or block first is not defined by lnd; the chain script's salt fixes it per scenario (same in the reference and in every crash execution). Only outputs of OUR pre-anchor commitment reach the nursery (second-level HTLC outputs); commitment outputs and anchor / taproot channels never do in this lnd",
+    "arm 'legacy+nursery', counted but not judged: a restarted htlcTimeoutResolver hands its HTLC to the nursery again (by design) and NurseryStore.Incubate ignores a duplicate only while the output is still in the crib; if the output had already graduated, the store ends with a crib / kindergarten entry for an output that is spent, scheduled at a height that has passed (nothing happens to it until the next start). No funds are involved and the statement does not speak of it: probe_nursery_stale_entry_for_swept_output; VERIF_C13_NURSERY_STRICT=1 turns it into the violation nursery-stale-entry (replay: inpkg/contractcourt/findings_c13/N1-stale-nursery-entry-after-reincubation.json)",
     "a panic in a goroutine started by lnd kills the worker (cannot be recovered inside a synctest bubble): reported as worker exit 2 with the Go panic trace, not as a replay file",
     "quick tier samples 14 single and 3 double crash points per scenario; thorough enumerates all 2W single points and W double points (second crash point seeded)",
     "a clean batch is evidence, not proof",
@@ -35,6 +38,9 @@ CHECK = {
              "state = reference (W write transactions), then (2) re-run from scratch once per crash point CrashBefore(k)/CrashAfter(k), k in 1..W (quick: 14 seeded points + 3 double "
              "crashes; thorough: all 2W + W double crashes, the second crash inside the epoch after the first restart): fence, stop, reopen, rebuild the arbitrator from disk like "
              "ChainArbitrator.Start, re-deliver close event / historical spends / sweeper answers, continue the same script. Each crash execution is compared with the reference. "
+             "Arm legacy+nursery (one pre-anchor scenario in four, decided by the LAST configuration draw; 0 = nursery model): the node also runs lnd's UtxoNursery on a NurseryStore in the same database, "
+             "started before the arbitrator at every (re)start; the nursery store's writes are crash points of the same enumeration and two of three sampled points are placed there; local force closes are "
+             "made likelier in this arm. "
              "non-trivial = a close was delivered with W>0 and at least one crash fired, the node restarted and the execution was compared to the end; distinct = distinct event-trace hash",
         states_measure="distinct (close kind, arbitrator state, unresolved-contract count) tuples after each block, plus (close kind, in-memory state) at each crash",
         expected_probes=["fault_crash_before", "fault_crash_after", "fault_second_crash", "probe_second_level_tx_with_fee_input",
@@ -45,11 +51,24 @@ CHECK = {
                          "probe_ref_close_local", "probe_ref_close_remote", "probe_ref_close_remote-pending", "probe_ref_close_breach", "probe_ref_close_coop",
                          "probe_ref_fully_resolved", "probe_ref_with_reports", "probe_two_stage_htlc_reached_stage_two",
                          "probe_duplicate_upstream_resolution", "probe_republish_after_restart", "probe_resweep_after_restart",
-                         "probe_restart_with_resolved_resolver_in_log", "probe_anchor_report_only_after_restart"],
+                         "probe_restart_with_resolved_resolver_in_log", "probe_anchor_report_only_after_restart",
+                         "probe_nursery_real_arm", "probe_nursery_ref_with_store_writes", "probe_nursery_incubate_out", "probe_nursery_incubate_in",
+                         "probe_nursery_crib_promoted", "probe_nursery_preschool_promoted", "probe_nursery_kinder_graduated", "probe_nursery_channel_removed",
+                         "fault_crash_in_nursery_store_write", "fault_crash_nursery_Incubate", "fault_crash_nursery_CribToKinder", "fault_crash_nursery_PreschoolToKinder",
+                         "fault_crash_nursery_GraduateKinder", "fault_crash_nursery_RemoveChannel", "probe_nursery_crash_between_two_store_writes",
+                         "probe_nursery_restart_with_nonempty_store", "probe_nursery_restart_with_crib_output", "probe_nursery_restart_with_pscl_output",
+                         "probe_nursery_restart_with_kndr_output", "probe_nursery_restart_with_grad_output",
+                         "probe_nursery_start_registers_conf", "probe_nursery_start_republishes", "probe_nursery_start_resweeps",
+                         "probe_nursery_historical_conf", "probe_nursery_sweep_already_spent", "probe_nursery_publish_double_spend",
+                         "probe_nursery_resweep_after_restart", "probe_nursery_republish_after_restart",
+                         "probe_nursery_promoted_output_back_in_crib", "probe_nursery_stale_entry_for_swept_output"],
         real_vs_stub=C13_STUB, assumptions=C13_ASSUME,
         simulated_time="block heights are simulator events; the synctest fake clock is never advanced by the engine (no lnd timer matters here)",
         determinism="actor engine in synctest bubbles (one bubble and one world per execution); one notification at a time to quiescence, parked stub calls released in key order; "
-                    "all draws happen in the reference execution and are replayed from the recording; self-test (with the real channel database): quick 500 runs (9041 crash executions) and thorough 60 runs (2704 crash executions), each in two processes with GOMAXPROCS 1 and 16: identical hashes and counters; 400 runs x 3 processes (GOMAXPROCS default, default, 4; with and without the database-snapshot shortcut) identical. Cost: 0.09 CPU-s per run in the quick tier (18 crash executions per run; 11 runs/s per worker, was 18 with the stub database - the difference is public-key parsing inside the real channeldb reads/writes); 9600 runs = 600 per worker = about 55 s on 16 idle cores",
+                    "all draws happen in the reference execution and are replayed from the recording; self-test (with the real channel database): quick 500 runs (9041 crash executions) and thorough 60 runs (2704 crash executions), each in two processes with GOMAXPROCS 1 and 16: identical hashes and counters; 400 runs x 3 processes (GOMAXPROCS default, default, 4; with and without the database-snapshot shortcut) identical. Cost: 0.09 CPU-s per run in the quick tier (18 crash executions per run; 11 runs/s per worker, was 18 with the stub database - the difference is public-key parsing inside the real channeldb reads/writes); 9600 runs = 600 per worker = about 55 s on 16 idle cores. "
+                    "With the real-nursery arm (VERIF_C13_NURSERY_ALL=1 forces every pre-anchor scenario into it; never set by the registered command): quick 150 runs (80 in the arm, 2704 crash executions), "
+                    "thorough 40 runs (1925 crash executions) and, arms as drawn, quick 300 runs (5416 crash executions), each in four processes with GOMAXPROCS 1/16/1/16: identical hashes and counters. "
+                    "The arm costs about 3% of the quick tier's throughput",
     ),
 }
 
@@ -64,8 +83,16 @@ TEXT = {
                            "unresolved-contracts bucket is empty; same set of contract keys ever in the log (none lost, none invented) and same resolver reports (outpoint, type, outcome, spend "
                            "txid); per offered HTLC the same de-duplicated upstream resolution (fail / settle), never both unless the reference already did; same final on-chain outcomes of "
                            "received HTLCs; nothing the reference published or offered to the sweeper is missing; a two-stage HTLC claim that was seen in stage two at a quiescent point is not "
-                           "sent back to stage one by a later crash (first-stage input offered again / handed to the nursery again).",
-                level_note="Trusted: synctest quiescence, the simulator's chain / sweeper / nursery model, bbolt atomicity. Immediate restart only (no downtime). Two genuine defects found by this check were fixed in lnd (7215c77 restart in StateContractClosed, ac70a5d restored-resolved "
+                           "sent back to stage one by a later crash (first-stage input offered again / handed to the nursery again). "
+                           "In the arm with the real utxo nursery additionally, from the documented contracts of utxonursery.go / nursery_store.go: the nursery starts on the restarted database; "
+                           "observed between any two write transactions, a channel leaves the nursery store only when all its outputs had graduated and an output leaves it in no other way; every crib / "
+                           "kindergarten output has its height-index entry and every height-index entry names an output of the channel index; a second-level transaction is not broadcast before its lock "
+                           "time; a kindergarten output is offered to the sweeper with the height at which it really confirmed; one output is never offered as two different inputs (offering the identical "
+                           "input again after a restart is allowed); NurseryReport agrees with the store (limbo until graduated, nothing when the channel is gone). Against the uninterrupted run: every "
+                           "output its nursery held reaches the nursery store; every output it swept and graduated is graduated too or at least spent on chain (none left unswept in the crib or in "
+                           "kindergarten); every second-level transaction it broadcast is broadcast and every output it offered to the sweeper is offered, as the same input. The arbitrator may report "
+                           "the channel fully resolved only when every ungraduated output of the nursery store is already spent on chain or can never exist.",
+                level_note="Trusted: synctest quiescence, the simulator's chain / sweeper model (and nursery model outside the arm with the real utxo nursery), bbolt atomicity. Immediate restart only (no downtime). Two genuine defects found by this check were fixed in lnd (7215c77 restart in StateContractClosed, ac70a5d restored-resolved "
                            "resolver never removed; regression replays under regress/). Known finding (open): C13-F3 a restart between "
                            "InsertConfirmedCommitSet and MarkChannelClosed makes the arbitrator force-close on its own and lose a dust fail-back."),
 }
